@@ -605,6 +605,7 @@ class ClientSession:
             await trace.send_request_start(method, url.update_query(params), headers)
 
         req: ClientRequest | None = None
+        resp: ClientResponse | None = None
         try:
             with timer:
                 # https://www.rfc-editor.org/rfc/rfc9112.html#name-retrying-requests
@@ -894,6 +895,11 @@ class ClientSession:
             if handle:
                 handle.cancel()
                 handle = None
+
+            if resp is not None:
+                # The response is not handed to the caller: drop its
+                # connection here, nobody else will.
+                resp.close()
 
             if req is not None and req._body is not None:
                 await req._body.close()
